@@ -1,0 +1,18 @@
+//go:build verif
+
+// Contracts for package subscription, read by /verif/govc (comment-only file).
+
+package subscription
+
+// C14 (a node is selected by ITS name): every server of a SIP008 document becomes one ss:// link, in document
+// order, whose fragment - the node's name, which name filters look at - is the server's remarks.
+//@ func ResolveSubscriptionAsSIP008
+//@   anchorsonly
+//@   nonilcheck
+//@   dyncalls noeffect
+//@   modifies *
+//@   at call URL).String#1 assert a0.Fragment == server.Remarks && a0.Scheme == "ss"
+//@   at call net.JoinHostPort#1 assert a0 == server.Server
+//@   at call strconv.Itoa#1 assert a0 == server.ServerPort
+//@   loop 1
+//@     exit $idx == len($range)
